@@ -86,7 +86,7 @@ def to_cases(behs, rnd, max_crashes_per_workload):
 
 
 # scripted scenarios of Crash.tla (see `Script`): name, out-of-order window, odds of a crash per step (simulation)
-SCRIPTS = [("s1", 0, 400), ("s2", 0, 250), ("s3", 5, 300), ("s4", 0, 150), ("k1", 5, 60)]
+SCRIPTS = [("s1", 0, 400), ("s2", 0, 250), ("s3", 5, 300), ("s4", 0, 150), ("k1", 5, 60), ("c1", 0, 300)]
 
 
 def run(ctx):
@@ -107,7 +107,7 @@ def run(ctx):
     if q and not ctx._parts:
         # quick tier: k1 and two of the four long scenarios, rotating with the seed (all of them in the thorough tier)
         long = SCRIPTS[:4]
-        scripts = [long[ctx.seed % 4], long[(ctx.seed + 1) % 4], SCRIPTS[4]]
+        scripts = [long[ctx.seed % 4], long[(ctx.seed + 1) % 4], SCRIPTS[4], SCRIPTS[5]]
     for name, w, odds in scripts:
         if not ctx.want(name):
             continue
@@ -115,6 +115,8 @@ def run(ctx):
                       constants={"ScriptName": '"%s"' % name, "W": w, "CrashOdds": odds}, timeout=(300 if q else 3000))
         ctx.account(sim)
         ctx.log("SIM %s: %d behaviours" % (name, len(sim.emitted)))
+        for b in sim.emitted:
+            b[0]["script"] = name
         behs += sim.emitted
     cases = to_cases(behs, rnd, 6 if q else 12)
     full = [c for c in cases if c["w"][-1]["a"] == "End"]
@@ -123,7 +125,14 @@ def run(ctx):
         # budget of the quick tier: a few complete workloads (dry run + real-trace crash points) and the model's crash points
         rnd.shuffle(full)
         rnd.shuffle(part)
-        full, part = full[:4], part[:30]
+        # complete workloads: one per script first (the shutdown-snapshot scenario c1 always), then up to the budget
+        by, pick = {}, []
+        for c in full:
+            by.setdefault(c["w"][0].get("script", "mc"), []).append(c)
+        for k in sorted(by, key=lambda x: (x != "c1", x)):
+            pick.append(by[k].pop(0))
+        rest = [c for k in sorted(by) for c in by[k]]
+        full, part = (pick + rest)[:5], part[:30]
     else:
         rnd.shuffle(full)
         rnd.shuffle(part)
